@@ -123,6 +123,8 @@ def gen_case(rng, tier, ctx, i):
             row[0] = int(sum(int(a) * int(x) for a, x in zip(row[1:], flat[0]))) + rng.choice([0, 1])
         p.pop("dtype", None)
     case = {"poly": p, "points": pts, "fn": rng.choice(FUNCS), "via": rng.choice(["method", "alias"])}
+    if rng.random() < 0.15 and "points_dtype" not in case:
+        case["derive"] = rng.getrandbits(32)
     flat_vals = numpy.array(pts, dtype=object).reshape(-1).tolist()
     if rng.random() < 0.3:
         # integer points stored in a narrower or unsigned integer type (where every coordinate fits)
@@ -159,3 +161,14 @@ def run_case(case, ctx):
         ctx.call(fn, getattr(pnd, fn), P, pts)
     else:
         ctx.call(fn, getattr(P, fn), pts)
+    if case.get("derive") is not None:
+        # a polyhedron derived from the first one by ordinary array operations is classified against its own rows
+        import random
+        rng = random.Random(case["derive"])
+        for f in rng.sample(FUNCS, 2):
+            ctx.call(f, getattr(P, f), pts)                 # earlier questions about P (whatever they may remember)
+        how, Q = polygen.derive(P, rng)
+        if type(Q) is type(P) and numpy.asarray(Q).ndim == 2 and numpy.asarray(Q).shape[1] == numpy.asarray(P).shape[1]:
+            ctx.count("count:derived-polyhedron:" + how)
+            for f in FUNCS:
+                ctx.call(f, getattr(Q, f), pts)
